@@ -984,8 +984,8 @@ def write_outputs(out, W, layout, recs, methods_out, untranslatable, forwards, s
     D += ['    }', '    return false;', '}']
     # payload-level wrappers: run the wrapper on a typed payload object constructed over the memory image (harness op FWD)
     D += ['// GENERATED: runs a payload-level wrapper of a Header accessor on an object built from the image (harness op FWD)',
-          'static bool fwdDispatch(int id, Bytes& mem, unsigned long long arg, unsigned long long arg2, unsigned long long& ret, int& hasRet)', '{',
-          '    (void) arg; (void) arg2; (void) ret; (void) hasRet; (void) mem;', '    switch (id)', '    {']
+          'static bool fwdDispatch(int id, Bytes& mem, unsigned long long arg, unsigned long long arg2, unsigned long long& ret, int& hasRet, int retag)', '{',
+          '    (void) arg; (void) arg2; (void) ret; (void) hasRet; (void) mem; (void) retag;', '    switch (id)', '    {']
     idx['wrappers'] = []
     by_q = {}
     for mg, (cls, name, node) in W.methods.items():
@@ -1007,6 +1007,7 @@ def write_outputs(out, W, layout, recs, methods_out, untranslatable, forwards, s
         D.append('        case %d:  // %s' % (wid, wq))
         D.append('        {')
         D.append('            %s o(mem.data(), mem.size());' % concrete)
+        D.append('            applyRetag(o, retag);')
         if rt == 'void':
             D.append('            o.%s(%s);' % (name, call_arg))
         elif rt == 'float':
